@@ -105,7 +105,8 @@ E0 == [op |-> "none", out |-> "ok", nopt |-> 0, argsame |-> TRUE,
        p |-> "none", bad |-> FALSE, fresh |-> "none", key |-> "none",
        rxhi |-> "none", binfail |-> FALSE, contnan |-> FALSE,
        val |-> "none", kwvals |-> <<>>, haspre |-> FALSE, streq |-> FALSE,
-       orphan |-> FALSE, ret |-> "none", expect |-> "none", tree |-> FALSE,
+       orphan |-> FALSE, ret |-> "none", expect |-> "none", expect2 |-> "none",
+       tree |-> FALSE,
        pseudo |-> FALSE, details |-> FALSE, via |-> "fresh",
        retnum |-> [m1 |-> FALSE, zero |-> FALSE, inrange |-> FALSE]]
 
